@@ -96,6 +96,46 @@ type qT struct {
 	V ab
 }
 
+type strMsg struct {
+	S string            `json:"s"`
+	T []string          `json:"t"`
+	M map[string]string `json:"m"`
+}
+
+// ctxProbe renders what its context-aware marshaler is handed: nil, a value, a field query.
+type ctxKey struct{}
+type ctxProbe struct{ N int }
+
+func (c *ctxProbe) MarshalJSON(ctx context.Context) ([]byte, error) {
+	if ctx == nil {
+		return []byte(`"no context"`), nil
+	}
+	q := "no query"
+	if fq := gojson.FieldQueryFromContext(ctx); fq != nil {
+		qs, _ := fq.QueryString()
+		q = string(qs)
+	}
+	return json.Marshal(fmt.Sprintf("value=%v %s", ctx.Value(ctxKey{}), q))
+}
+
+type ctxHolder struct {
+	A int
+	P *ctxProbe
+}
+
+func (c *ctxProbe) UnmarshalJSON(ctx context.Context, b []byte) error {
+	if ctx == nil {
+		c.N = -1
+		return nil
+	}
+	if ctx.Value(ctxKey{}) != nil {
+		c.N = 1
+		return nil
+	}
+	c.N = 0
+	return nil
+}
+
 func largeValue() interface{} {
 	m := map[string]interface{}{}
 	for i := 0; i < 300; i++ {
@@ -132,6 +172,7 @@ var (
 	hPath2, _ = gojson.CreatePath("$..k")
 	hQuery, _ = gojson.BuildFieldQuery("X", gojson.BuildSubFieldQuery("P").Fields("A"))
 	hQuery2, _ = gojson.BuildFieldQuery("V", "X")
+	hQuery3, _ = gojson.BuildFieldQuery("P")
 )
 
 type feed struct{ pending []byte }
@@ -219,6 +260,23 @@ var Kinds = map[string]func() result{
 		return enc(func() ([]byte, error) { return gojson.MarshalIndentWithOption(smallValue(), "", " ", gojson.Colorize(gojson.DefaultColorScheme)) })
 	},
 	"opt:debug": func() result { return enc(func() ([]byte, error) { return gojson.MarshalWithOption(smallValue(), gojson.DebugWith(io.Discard)) }) },
+	"ctxaware:marshal": func() result { return enc(func() ([]byte, error) { return gojson.Marshal(&ctxHolder{A: 1, P: &ctxProbe{2}}) }) },
+	"ctxaware:indent": func() result {
+		return enc(func() ([]byte, error) { return gojson.MarshalIndent(&ctxHolder{A: 1, P: &ctxProbe{2}}, "", " ") })
+	},
+	"ctxaware:noescape": func() result {
+		return enc(func() ([]byte, error) { return gojson.MarshalNoEscape(&ctxHolder{A: 1, P: &ctxProbe{2}}) })
+	},
+	"ctx:value": func() result {
+		return enc(func() ([]byte, error) {
+			return gojson.MarshalContext(context.WithValue(context.Background(), ctxKey{}, "secret"), &ctxHolder{A: 1, P: &ctxProbe{2}})
+		})
+	},
+	"ctx:valuequery": func() result {
+		return enc(func() ([]byte, error) {
+			return gojson.MarshalContext(gojson.SetFieldQueryToContext(context.WithValue(context.Background(), ctxKey{}, "s2"), hQuery3), &ctxHolder{A: 1, P: &ctxProbe{2}})
+		})
+	},
 	"ctx:plain": func() result { return enc(func() ([]byte, error) { return gojson.MarshalContext(context.Background(), smallValue()) }) },
 	"ctx:query1": func() result {
 		return enc(func() ([]byte, error) {
@@ -328,6 +386,19 @@ var Kinds = map[string]func() result{
 			return hDec.Decode(d)
 		})
 	},
+	// a long-lived Decoder on a message-oriented reader (one document per Read): the strings of earlier values must survive later Decodes
+	"dec:streamstr-a": func() result {
+		return dec(`{"s":"first message","t":["alpha","beta"],"m":{"key-one":"v1"}}`+"\n", func() interface{} { return new(strMsg) }, func(in []byte, d interface{}) error {
+			hFeed.pending = append(hFeed.pending, in...)
+			return hDec.Decode(d)
+		})
+	},
+	"dec:streamstr-b": func() result {
+		return dec(` {"t":["GAMMA"],"s":"2nd","m":{"another key":"another value","k":""}}`, func() interface{} { return new(strMsg) }, func(in []byte, d interface{}) error {
+			hFeed.pending = append(hFeed.pending, in...)
+			return hDec.Decode(d)
+		})
+	},
 	"dec:usenumber": func() result {
 		return dec(`[1,2.50,{"n":3}]`, func() interface{} { return new(interface{}) }, func(in []byte, d interface{}) error {
 			dd := gojson.NewDecoder(bytes.NewReader(in))
@@ -345,6 +416,24 @@ var Kinds = map[string]func() result{
 	"dec:plain-unknown": func() result {
 		return dec(`{"a":1,"zz":2}`, func() interface{} { return new(ab) }, func(in []byte, d interface{}) error {
 			return gojson.NewDecoder(bytes.NewReader(in)).Decode(d)
+		})
+	},
+	"ctxaware:unmarshal": func() result {
+		return dec(`{"A":1,"P":7}`, func() interface{} { return new(ctxHolder) }, func(in []byte, d interface{}) error { return gojson.Unmarshal(in, d) })
+	},
+	"ctxaware:decode": func() result {
+		return dec(`{"A":1,"P":7}`, func() interface{} { return new(ctxHolder) }, func(in []byte, d interface{}) error {
+			return gojson.NewDecoder(bytes.NewReader(in)).Decode(d)
+		})
+	},
+	"uctx:value": func() result {
+		return dec(`{"A":1,"P":7}`, func() interface{} { return new(ctxHolder) }, func(in []byte, d interface{}) error {
+			return gojson.UnmarshalContext(context.WithValue(context.Background(), ctxKey{}, "secret"), in, d)
+		})
+	},
+	"dec:ctxvalue": func() result {
+		return dec(`{"A":1,"P":7}`, func() interface{} { return new(ctxHolder) }, func(in []byte, d interface{}) error {
+			return gojson.NewDecoder(bytes.NewReader(in)).DecodeContext(context.WithValue(context.Background(), ctxKey{}, "secret"), d)
 		})
 	},
 	"dec:ctx": func() result {
